@@ -173,17 +173,20 @@ class SpyBreaker(CircuitBreaker):
 
     def record_success(self):
         r = super().record_success()
-        self._rv_sink().append(("br.success", r))
+        w = env.current()
+        self._rv_sink().append(("br.success", r, w.now() if w else None))
         return r
 
     def record_failure(self, klass):
         r = super().record_failure(klass)
-        self._rv_sink().append(("br.failure", getattr(klass, "name", repr(klass)), r))
+        w = env.current()
+        self._rv_sink().append(("br.failure", getattr(klass, "name", repr(klass)), r, w.now() if w else None))
         return r
 
     def record_cancel(self):
         r = super().record_cancel()
-        self._rv_sink().append(("br.cancel",))
+        w = env.current()
+        self._rv_sink().append(("br.cancel", w.now() if w else None))
         return r
 
 
@@ -594,14 +597,15 @@ class Harness:
                 Budget.consume(self.budget)
         if self.breaker is not None:
             for step in br.get("pre", ()):
+                # through the spy: recorded in self._pre (not in any call's trace) so shadow models can follow
                 if step[0] == "fail":
-                    CircuitBreaker.record_failure(self.breaker, EC[step[1]])
+                    self.breaker.record_failure(EC[step[1]])
                 elif step[0] == "adv":
                     self.world.t += step[1]
                 elif step[0] == "allow":
-                    CircuitBreaker.allow(self.breaker)
+                    self.breaker.allow()
                 elif step[0] == "success":
-                    CircuitBreaker.record_success(self.breaker)
+                    self.breaker.record_success()
 
     # -------------------------------------------------------------------- run
     def _common_call_kw(self, rec):
